@@ -189,7 +189,7 @@ def check_case(schema, engine, kind, fname, ftype, label, value, out, shape):
     if clause is None:
         data = resp["data"]
         errs = resp.get("errors") or []
-        err_paths = [tuple(e.get("path") or ()) for e in errs]
+        err_paths = [explore.path_of(e) for e in errs]
         if data is None:
             if not errs:
                 clause = "data-null-without-error"
